@@ -533,7 +533,16 @@ func (c *Client) Kill() {
 		// Close the client to cleanly exit the process.
 		client, err := c.Client()
 		if err == nil {
-			err = client.Close()
+			// A plugin that is frozen never answers the shutdown request. Do
+			// not wait for it any longer than for the graceful exit itself:
+			// the force kill below ends the pending request.
+			closed := make(chan error, 1)
+			go func() { closed <- client.Close() }()
+			select {
+			case err = <-closed:
+			case <-time.After(2 * time.Second):
+				err = errors.New("timeout waiting for the plugin to acknowledge shutdown")
+			}
 
 			// If there is no error, then we attempt to wait for a graceful
 			// exit. If there was an error, we assume that graceful cleanup
